@@ -399,9 +399,44 @@ def check_cli(ck, tier):
             extra = [x for x in os.listdir(tmp) if not x.endswith(".vhd")]
             if extra:
                 ck.violation("cli:stray-files", "stray files after run: %r" % extra, {"kind": "input", "file": os.path.relpath(src, vlib.REPO)})
+        # files that are violation free because nothing is switched on: every rule disabled by configuration, or the
+        # whole file inside a vsg_off region. Whatever the text looks like (trailing whitespace, whitespace-only lines,
+        # tabs), --fix must leave the bytes, the inode and the mtime alone.
+        odd = "library ieee;  \n\t\nentity  E  is   \n   \nend entity  E; \t\n\narchitecture  A of E is\nbegin  \n  x <= y;    \n\nend architecture A;"
+        alloff = os.path.join(tmp, "alloff.yaml")
+        open(alloff, "w").write("rule:\n  global:\n    disable: true\n")
+        quiet = 0
+        extra_srcs = [os.path.join(vlib.REPO, "tests", "styles", "code_examples", "trailing_whitespace.vhd")] + fs[: (6 if tier == "thorough" else 2)]
+        cases = [("all-rules-disabled", odd + "\n", ["-c", alloff]), ("vsg_off-region", "-- vsg_off\n" + odd + "\n", [])]
+        for src in extra_srcs:
+            if os.path.exists(src):
+                try:
+                    txt = open(src, encoding="utf-8").read()
+                except Exception:
+                    continue
+                cases.append(("all-rules-disabled", txt, ["-c", alloff]))
+                cases.append(("vsg_off-region", "-- vsg_off\n" + txt, []))
+        for i, (kind, txt, args) in enumerate(cases):
+            dst = os.path.join(tmp, "q%d.vhd" % i)
+            open(dst, "w", encoding="utf-8").write(txt)
+            jf = os.path.join(tmp, "q%d.json" % i)
+            vlib.sh(vlib.vsg_cmd() + ["-f", dst, "-ap", "--json", jf] + args, env=vlib.repo_env(), timeout=600)
+            try:
+                left = [v["rule"] for fe in json.load(open(jf))["files"] for v in fe["violations"]]
+            except Exception:
+                left = None
+            if os.path.exists(jf):
+                os.unlink(jf)
+            if left != []:
+                continue  # rejected, or a rule that ignores the switch: not the premise of the clause
+            before = snap(dst)
+            vlib.sh(vlib.vsg_cmd() + ["-f", dst, "--fix"] + args, env=vlib.repo_env(), timeout=600)
+            quiet += 1
+            if snap(dst) != before:
+                ck.violation("cli:fix-rewrites-clean-file:" + kind, "--fix rewrote a file that reports no violation (%s): %s" % (kind, "content changed" if snap(dst)[0] != before[0] else "inode/mtime differ"), {"kind": "input", "oracle": "cli_untouched", "why_clean": kind, "text": txt[:2000], "args": args})
     finally:
         shutil.rmtree(tmp, ignore_errors=True)
-    ck.cov["cli"] = {"files": done, "fixed_files_without_fixable_violation_left": clean}
+    ck.cov["cli"] = {"files": done, "fixed_files_without_fixable_violation_left": clean, "violation_free_by_switch_files_fixed": quiet}
     return done
 
 
